@@ -99,6 +99,8 @@ End MErr.
      or frequency_vector[frequencies - 1] < upper) -> -1;
      frequency_vector NULL: frequencies != 1 && frequencies != vn_frequencies -> -1;
      T16 / U16 and some standard without full S -> -1 (en_full_s_ok: the outcome of that walk, not modelled);
+     own grid with frequencies > 1 and two knots closer than MIN_DX -> -1 (en_gaps_ok: the outcome of
+     _vnacommon_spline_calc's test, C10's model; VMatrixNoise instantiates it);
    then  frequencies == 1: element 0 at every calibration frequency (also when a frequency vector was
    given);  frequency_vector NULL: element findex;  else the spline through the given points evaluated
    at the calibration frequencies (interp: C10's model, abstract here).
@@ -113,7 +115,8 @@ Variable interp : list R -> list R -> R -> R.
 Record menv := { en_calf : list R;          (* vn_frequency_vector; vn_frequencies = its length *)
                  en_fvalid : bool;          (* vn_frequencies_valid *)
                  en_lo : R; en_hi : R;      (* (1 + VNACAL_F_EXTRAPOLATION) * fmin, (1 - ...) * fmax *)
-                 en_full_s_ok : bool }.
+                 en_full_s_ok : bool;
+                 en_gaps_ok : list R -> bool }.  (* _vnacommon_spline_calc accepts the knots: every gap >= MIN_DX *)
 Record margs := { a_fv : option (list R); a_n : nat; a_nf : option (list R); a_tr : option (list R) }.
 
 Fixpoint ascending (l : list R) : bool :=
@@ -130,12 +133,26 @@ Definition values_at (env : menv) (a : margs) (ys : list R) : list R :=
        | Some fv => map (interp (firstn (a_n a) fv) (firstn (a_n a) ys)) (en_calf env)
        end.
 
+(* "if (frequency_vector != NULL && frequencies > 1) { entries finite and >= 0; ascending; range }
+    else if (frequencies != 1 && frequencies != vn_frequencies) -> -1": a vector given with
+   frequencies == 1 is not looked at (since fix DC94); NaN / inf have no counterpart over R, the
+   "< 0.0" test of fix DC92 has *)
 Definition grid_rejected (env : menv) (a : margs) : bool :=
   let F := length (en_calf env) in
   match a_fv a with
-  | Some fv => (negb (ascending (firstn (a_n a) fv)) ||
-                (negb (Nat.eqb F 0) && (ltb (en_lo env) (nth 0 fv r0) || ltb (nth (a_n a - 1) fv r0) (en_hi env))))%bool
+  | Some fv =>
+      if Nat.eqb (a_n a) 1 then false
+      else (existsb (fun v => ltb v r0) (firstn (a_n a) fv) ||
+            negb (ascending (firstn (a_n a) fv)) ||
+            (negb (Nat.eqb F 0) && (ltb (en_lo env) (nth 0 fv r0) || ltb (nth (a_n a - 1) fv r0) (en_hi env))))%bool
   | None => (negb (Nat.eqb (a_n a) 1) && negb (Nat.eqb (a_n a) F))%bool
+  end.
+(* "use_spline = frequencies != 1 && frequency_vector != NULL; _vnacommon_spline_calc(...) == -1 ->
+   -1 (EINVAL: frequencies are too close together)", before the first write (fix DI90) *)
+Definition spline_rejected (env : menv) (a : margs) : bool :=
+  match a_fv a with
+  | Some fv => (negb (Nat.eqb (a_n a) 1) && negb (en_gaps_ok env (firstn (a_n a) fv)))%bool
+  | None => false
   end.
 
 Definition lower (env : menv) (a : margs) : mcall R :=
@@ -148,6 +165,7 @@ Definition lower (env : menv) (a : margs) : mcall R :=
       else if negb (en_fvalid env) then MInvalid R
       else if grid_rejected env a then MInvalid R
       else if negb (en_full_s_ok env) then MInvalid R
+      else if spline_rejected env a then MInvalid R
       else MSet R (values_at env a nf) (option_map (values_at env a) (a_tr a))
   end.
 
